@@ -98,6 +98,31 @@ def sit_estab_inflight(sim, p):
     sim.segments('A')
 
 
+def sit_estab_wndlimited(sim, p):
+    """the peer advertises a small window w (as a receiver with a small buffer would); A has more to send than fits: w bytes in
+    flight, the rest queued"""
+    handshake(sim, p)
+    ex = sim.ex
+    w = sym_int('w', 16)
+    ex.assume(ex.binop('Ge', w, Int(16, 1), False))
+    ex.assume(ex.binop('Le', w, Int(16, 2000), False))
+    # one byte goes over first so that the peer's next ACK acknowledges something new (the implementation takes window
+    # updates only from ACKs that advance SND.UNA); that ACK carries the small window
+    sim.send('A', U64(1))
+    pump(sim, 'A', 'B', p)
+    sim.segments('B')
+    vb = sim.view('B')
+    sim.arrives('A', sim.forged('B', vb.snd('nxt'), vb.rcv('nxt'), Int(8, ACK), w))
+    if not (ex.binop('Eq', sim.view('A').snd('wnd'), w, False) is True):
+        raise Unsupported('window-limited situation: the window update was not taken')
+    n = sym_int('n', 64)
+    w64 = ex.cast(w, 'u64', 'IntToInt')
+    ex.assume(ex.binop('Gt', n, w64, False))
+    ex.assume(ex.binop('Le', n, ex.binop('Add', w64, U64(1500), False), False))
+    sim.send('A', n)
+    sim.segments('A')
+
+
 def sit_estab_unread(sim, p):
     handshake(sim, p)
     sim.send('A', p.data_len(sim.ex))
@@ -164,6 +189,7 @@ SITUATIONS = {
     'simopen': (sit_simopen, ['A'], {'A': 'SynReceived'}),
     'estab': (sit_estab, ['A', 'B'], {'A': 'Established', 'B': 'Established'}),
     'estab_inflight': (sit_estab_inflight, ['A', 'B'], {'A': 'Established', 'B': 'Established'}),
+    'estab_wndlimited': (sit_estab_wndlimited, ['A'], {'A': 'Established'}),
     'estab_unread': (sit_estab_unread, ['B'], {'B': 'Established'}),
     'estab_ooo': (sit_estab_ooo, ['B'], {'B': 'Established'}),
     'finwait1': (sit_finwait1, ['A'], {'A': 'FinWait1'}),
@@ -475,24 +501,34 @@ def check_path(ex, F, unit, sim, kind, r, res, known_classes):
                                                    f'a segment entirely outside the receive window (or without SYN/RST in SYN-SENT) changed the connection in {pre["state"]}',
                                                    'c17b', model=m))
                 return
-    # ---------------- forged text never reaches the application unless it was acceptable; (data integrity is C01)
-    # ---------------- (c) new data never exceeds the window last advertised
+    # ---------------- sender mapping (C01): everything between SND.UNA and SND.NXT is still on the retransmission queue
+    res.obligations += 1
+    if info['arr'] == 'Ok':
+        bad = queue_covers_unacked(ex, F, post)
+        if bad is not None:
+            what, m = bad
+            res.violations.append(mk_violation(ex, sim, unit, f'c01:retransmission-queue-does-not-cover-unacked:{pre["state"]}',
+                                               'after the segment the retransmission queue no longer holds exactly the unacknowledged sequence space: ' + what, 'c01', model=m))
+    # ---------------- (c) new data never goes beyond the right edge SND.UNA + SND.WND of the window last advertised
     if 'post2' in info:
         p2 = info['post2']
         res.obligations += 1
-        grew = len(p2['retx']) > len(post['retx'])
-        if grew:
-            tot = U64(0)
+        new = p2['retx'][len(post['retx']):]
+        if new:
+            ctl_in_flight = 0
             for tx in p2['retx']:
-                sg = tx.f[F.tx['segment']]
-                _, txt = seg_parts(F, sg)
-                tot = ex.binop('Add', tot, txt.length(ex), False)
-            within = ex.binop('Le', tot, ex.cast(p2['snd']['wnd'], 'u64', 'IntToInt'), False)
-            okv, m = _valid(ex, within)
-            if not okv:
-                res.violations.append(mk_violation(ex, sim, unit, f'c17c:new-data-beyond-window:{pre["state"]}',
-                                                   'segments() emitted new data although the data in flight then exceeds SND.WND', 'c17c', model=m))
-                return
+                hv, _ = seg_parts(F, tx.f[F.tx['segment']])
+                if hv.ctl.conc and hv.ctl.v & (SYN | FIN):
+                    ctl_in_flight += 1
+            lim = ex.binop('Add', ex.cast(p2['snd']['wnd'], 'u64', 'IntToInt'), U64(ctl_in_flight), False)
+            for tx in new:
+                hv, txt = seg_parts(F, tx.f[F.tx['segment']])
+                edge = ex.binop('Add', _seq_off(ex, hv.seq, p2['snd']['una']), txt.length(ex), False)
+                okv, m = _valid(ex, ex.binop('Le', edge, lim, False))
+                if not okv:
+                    res.violations.append(mk_violation(ex, sim, unit, f'c17c:new-data-beyond-window:{pre["state"]}',
+                                                       'segments() emitted new data beyond SND.UNA + SND.WND, the right edge of the window the peer last advertised', 'c17c', model=m))
+                    return
     vsel = (res.paths * 7919 + unit['cls'] * 31 + int(os.environ.get('VERIF_SEED', '0') or 0)) % 23 == 0
     if len(res.samples) < 3 or (vsel and len(res.validation) < 2):
         okk, m = ex.check_sat()
@@ -503,6 +539,34 @@ def check_path(ex, F, unit, sim, kind, r, res, known_classes):
         res.samples.append({'situation': unit['situation'], 'target': target, 'flags': sorted(flags), 'seq': ev(seq), 'ack': ev(ack), 'wnd': ev(wnd),
                             'text_len': ev(tlen), 'issA': ev(sim.info['p'].issA), 'issB': ev(sim.info['p'].issB),
                             'state': f'{pre["state"]}->{post["state"]}', 'result': info['arr']})
+
+
+def queue_covers_unacked(ex, F, obs):
+    """the retransmission queue is contiguous, starts at or before SND.UNA (a partially acknowledged segment stays), and ends at
+    SND.NXT; it is empty only when SND.UNA == SND.NXT.  returns None or (description, model)"""
+    una, nxt = obs['snd']['una'], obs['snd']['nxt']
+    q = obs['retx']
+    if not q:
+        okv, m = _valid(ex, ex.binop('Eq', una, nxt, False))
+        return None if okv else ('queue is empty although SND.UNA != SND.NXT', m)
+    pos = None
+    for i, tx in enumerate(q):
+        hv, txt = seg_parts(F, tx.f[F.tx['segment']])
+        ln = ex.binop('Add', ex.cast(txt.length(ex), 'u32', 'IntToInt'),
+                      U32((1 if hv.ctl.conc and hv.ctl.v & SYN else 0) + (1 if hv.ctl.conc and hv.ctl.v & FIN else 0)), False)
+        if i == 0:
+            # first.seq <= una < first.seq + len   (or the whole first entry is still unacknowledged)
+            d = ex.binop('Sub', una, hv.seq, False)
+            okv, m = _valid(ex, ex.binop('Lt', d, ln, False))
+            if not okv:
+                return ('SND.UNA does not lie inside the first queued segment', m)
+        else:
+            okv, m = _valid(ex, ex.binop('Eq', hv.seq, pos, False))
+            if not okv:
+                return (f'queued segment {i} does not start where segment {i - 1} ends', m)
+        pos = ex.binop('Add', hv.seq, ln, False)
+    okv, m = _valid(ex, ex.binop('Eq', pos, nxt, False))
+    return None if okv else ('the last queued segment does not end at SND.NXT', m)
 
 
 def b_ite64(ex, c, a, b):
